@@ -106,6 +106,14 @@ def write_leaves(base, fmt, mode, leaves, rng, R, writer, force_pattern=None, gr
             tilegen.write_tile_toasty(pio, p, fmt, arr)
         else:
             tilegen.write_tile(base, p, fmt, arr)
+            if fmt == "fits" and (force_pattern == "all" or R.random() < 0.4):
+                # a tile cut out of a larger mosaic by another tool: its header INHERITS the mosaic's DATAMIN / DATAMAX cards,
+                # whatever this cut-out holds (possibly nothing at all)
+                from astropy.io import fits as _fits
+
+                fp = os.path.join(base, tilegen.tile_relpath(p, fmt))
+                _fits.setval(fp, "DATAMIN", value=-3.5)
+                _fits.setval(fp, "DATAMAX", value=812.25)
             if grey and fmt == "png":
                 # an 8-bit GREYSCALE png (PIL mode L), as other tools write for monochrome data: colour data like any other
                 from PIL import Image as PI
